@@ -57,6 +57,7 @@ deriving Repr
     (`inspect.signature` of a non-callable) -/
 def checkStep (mi : MetricInfo) (transform : String) (step : String) : Option Bool :=
   if step = "callable" then some mi.callable
+  else if step = "signature" then (if mi.callable then some true else none)
   else if step = "reserved_in_signature" then
     if mi.callable then some (FairnessSpec.parametersForTransforms.all (fun p => !(mi.sigParams.contains p))) else none
   else if step = "transform_option" then some (FairnessSpec.transformOptions.contains transform)
@@ -120,11 +121,12 @@ def finish (d : Made) (meth : Option KwVal) (nsf : Nat) (rows : List (Row Dat)) 
   else pure (ofRes (run .meanpred k .between false nsf rows))
 
 /-- `dm(y_true, y_pred, sensitive_features=cols, **kw)` for the metric family described above.
-    `none` = outside the modelled inputs (e.g. a scalar passed as sample parameter). -/
-def call (mi : MetricInfo) (d : Made) (kw : List (String × KwVal)) (ys ps : List Rat)
+    `none` = outside the modelled inputs (e.g. a scalar passed as sample parameter).
+    `strictName`: the metric's `__name__` is read without a fallback. -/
+def callWith (strictName : Bool) (mi : MetricInfo) (d : Made) (kw : List (String × KwVal)) (ys ps : List Rat)
     (cols : List (List Level)) : Option Out := do
-  -- line 68: `bound_fn_name = self._metric_fn.__name__`
-  if DerivedSpec.readsName && !mi.hasName then return .attributeError
+  -- line 68: `bound_fn_name = self._metric_fn.__name__` (strict) / `getattr(self._metric_fn, "__name__", ...)`
+  if strictName && !mi.hasName then return .attributeError
   -- keywords that reach the metric function (sample parameters and bound parameters)
   let toMetric := kw.filter (fun e => route d.spn e.1 != "transform")
   if !mi.acceptsAny && toMetric.any (fun e => !(mi.sigParams.contains e.1)) then return .typeError
@@ -146,6 +148,11 @@ def call (mi : MetricInfo) (d : Made) (kw : List (String × KwVal)) (ys ps : Lis
   let rows ← MetricPool.mkRows 0 ys (ps.map (· * scale)) w (ys.map (fun _ => 0)) cols
   if rows.isEmpty then none
   finish d (lookupKw kw "transform" d.spn "method") cols.length rows
+
+/-- the call under the name rule of the CURRENT source (`DerivedSpec.readsName`, lifted) -/
+def call (mi : MetricInfo) (d : Made) (kw : List (String × KwVal)) (ys ps : List Rat)
+    (cols : List (List Level)) : Option Out :=
+  callWith DerivedSpec.readsName mi d kw ys ps cols
 
 /-! ### driver glue -/
 
